@@ -36,20 +36,20 @@ Section Proofs.
     - destruct (text_eq_dec t t'); [reflexivity | apply IH].
   Qed.
 
-  Let f (s : store key vec) := fun (d : tdict text vec) (t : text) =>
-    match sget s (kg t) with Some v => td_set text vec d t v | None => d end.
+  Notation f s := (fun (d : tdict text vec) (t : text) =>
+    match sget s (kg t) with Some v => td_set text vec d t v | None => d end).
 
-  Lemma fold_get_notin : forall s l d0 t, ~ In t l -> tget (fold_left (f s) l d0) t = tget d0 t.
+  Lemma fold_get_notin : forall (s : store key vec) l d0 t, ~ In t l -> tget (fold_left (f s) l d0) t = tget d0 t.
   Proof.
     induction l as [|a l IH]; intros d0 t Hn; simpl.
     - reflexivity.
     - rewrite IH by (intro; apply Hn; right; assumption).
-      unfold f. destruct (sget s (kg a)); [|reflexivity].
+      destruct (sget s (kg a)); [|reflexivity].
       simpl. destruct (text_eq_dec t a) as [e|_]; [|reflexivity].
       exfalso. apply Hn. left. symmetry. exact e.
   Qed.
 
-  Lemma fold_get_in : forall s l d0 t, In t l ->
+  Lemma fold_get_in : forall (s : store key vec) l d0 t, In t l ->
     tget (fold_left (f s) l d0) t = match sget s (kg t) with Some v => Some v | None => tget d0 t end.
   Proof.
     induction l as [|a l IH]; intros d0 t Hin; simpl.
@@ -57,29 +57,29 @@ Section Proofs.
     - destruct (in_dec text_eq_dec t l) as [Hl|Hl].
       + rewrite IH by assumption.
         destruct (sget s (kg t)) eqn:Hg; [reflexivity|].
-        unfold f. destruct (sget s (kg a)) eqn:Ha; [|reflexivity].
+        destruct (sget s (kg a)) eqn:Ha; [|reflexivity].
         simpl. destruct (text_eq_dec t a) as [e|_]; [|reflexivity].
         subst a. rewrite Hg in Ha. discriminate Ha.
       + destruct Hin as [e|Hin]; [subst a|contradiction].
         rewrite fold_get_notin by assumption.
-        unfold f. destruct (sget s (kg t)); [|reflexivity].
+        destruct (sget s (kg t)); [|reflexivity].
         simpl. destruct (text_eq_dec t t); [reflexivity|congruence].
   Qed.
 
-  Lemma cgl_in : forall s l t, In t l -> tget (cgl s l) t = sget s (kg t).
+  Lemma cgl_in : forall (s : store key vec) l t, In t l -> tget (cgl s l) t = sget s (kg t).
   Proof.
-    intros s l t Hin. unfold cache_get_list. change (fold_left _ l []) with (fold_left (f s) l []).
+    intros s l t Hin. unfold cache_get_list.
     rewrite fold_get_in by assumption. destruct (sget s (kg t)); reflexivity.
   Qed.
 
-  Lemma cgl_notin : forall s l t, ~ In t l -> tget (cgl s l) t = None.
+  Lemma cgl_notin : forall (s : store key vec) l t, ~ In t l -> tget (cgl s l) t = None.
   Proof.
-    intros s l t Hn. unfold cache_get_list. change (fold_left _ l []) with (fold_left (f s) l []).
+    intros s l t Hn. unfold cache_get_list.
     rewrite fold_get_notin by assumption. reflexivity.
   Qed.
 
   (* ---- EmbeddingsCache.set(texts, map emb texts) ------------------------------------ *)
-  Lemma csl_cons : forall s a u v vs, csl s (a :: u) (v :: vs) = csl (store_set s (kg a) v) u vs.
+  Lemma csl_cons : forall (s : store key vec) a u v vs, csl s (a :: u) (v :: vs) = csl (store_set s (kg a) v) u vs.
   Proof. reflexivity. Qed.
 
   Lemma csl_notin : inj_on -> forall u s t, Forall P u -> P t -> ~ In t u ->
@@ -121,7 +121,7 @@ Section Proofs.
     (forall t, In t texts -> ~ In t u -> exists v, tget c t = Some v) /\
     (forall t v, P t -> tget c t = Some v -> v = emb t).
 
-  Lemma wrap_begin_unc : forall s texts t,
+  Lemma wrap_begin_unc : forall (s : store key vec) texts t,
     In t (snd (wrap_begin text_eq_dec key_eq_dec kg s texts)) <->
     In t texts /\ sget s (kg t) = None.
   Proof.
@@ -207,7 +207,7 @@ Section Proofs.
   Qed.
 
   (* the model is asked only for texts of this call *)
-  Theorem cache_calls_sub : forall enabled model s texts c t,
+  Theorem cache_calls_sub : forall enabled model (s : store key vec) texts c t,
     In c (w_calls (wrapper text_eq_dec key_eq_dec kg enabled model s texts)) -> In t c -> In t texts.
   Proof.
     intros enabled model s texts c t Hc Ht. unfold wrapper in Hc. destruct enabled.
@@ -234,4 +234,20 @@ Section Proofs.
     - destruct (text_eq_dec t1 t1) as [_|n2]; [|congruence]. intro H. inversion H. congruence.
   Qed.
 
+  (* the two halves of one call run on DIFFERENT consistent stores: whatever other tasks
+     wrote into the (shared) store while the model call was awaited *)
+  Theorem wrapper_interleaved : inj_on -> forall s1 s2 texts, Forall P texts ->
+    consistent s1 -> consistent s2 ->
+    let b := wrap_begin text_eq_dec key_eq_dec kg s1 texts in
+    let e := wrap_end text_eq_dec key_eq_dec kg s2 texts (fst b) (snd b) (map emb (snd b)) in
+    fst e = map (fun t => Some (emb t)) texts /\ consistent (snd e).
+  Proof.
+    intros Hinj s1 s2 texts HP H1 H2. simpl.
+    apply wrap_end_ok; try assumption. apply wrap_begin_ok. assumption.
+  Qed.
+
 End Proofs.
+
+Arguments inj_on {text key} kg P.
+Arguments consistent {text key vec} key_eq_dec kg emb P s.
+Arguments begin_ok {text vec} text_eq_dec emb P texts c u.
